@@ -102,8 +102,15 @@ def payload_wire(obj):
     return {'kind': 'nonmap', 'truthy': bool(obj)}
 
 
+YAML_WORDS = {'true', 'false', 'null', 'none', 'yes', 'no', 'on', 'off', 'y', 'n', 'nan', 'inf'}
+
+
 def yaml_key(k):
-    return k if isinstance(k, str) and k.replace('_', '').isalnum() and not k[0].isdigit() else json.dumps(k)
+    """a str key: plain when that is safe (ASCII name that YAML does not read as bool / null / number), else double-quoted;
+    a non-str key (int, bool, None, float): its YAML literal"""
+    plain = (isinstance(k, str) and k.isascii() and k.replace('_', '').isalnum() and not k[0].isdigit()
+             and k.lower() not in YAML_WORDS)
+    return k if plain else json.dumps(k)
 
 
 def yaml_text(obj, style=0):
@@ -640,6 +647,128 @@ def platform_cases(rng, res, quick):
     return out
 
 
+# --------------------------------------------------------------------------
+# unknown settings: which NAMES a file may not use
+# --------------------------------------------------------------------------
+
+# names the Config object is documented / known to carry besides its settings (the pool below adds, at run time, every
+# attribute the object and class of the tree under test actually have)
+STATIC_ATTRS = ['skip_init', 'cwd', 'platform', 'is_windows', 'is_macos', 'is_posix', 'platform_paths', 'pyproject_toml',
+                'config_loaded_paths', 'init', 'update', 'load_yaml', 'load_pyproject_toml', 'handle_path', '_skip_init',
+                '_config_loaded_paths', '_platform_paths', '_pyproject_toml', '_cwd', 'all_writable_props', 'dict_props',
+                'scalar_props', '__class__', '__dict__', '__init__', '__doc__', '__module__', '__slots__', '__weakref__']
+_ATTR_POOL = None
+
+
+def attr_pool():
+    """The name of EVERY attribute of the Config object and class of the tree under test (instance attributes, properties,
+    methods, private and dunder names, the module singleton's too), computed at run time, plus STATIC_ATTRS - minus the
+    documented writable set (DEFAULTS: the monitor's own list, not the implementation's). None of them is a setting."""
+    global _ATTR_POOL
+    if _ATTR_POOL is None:
+        names = set(STATIC_ATTRS)
+        try:
+            import pypyr.config as pc
+            for klass in pc.Config.__mro__:
+                names |= set(vars(klass))
+            names |= set(dir(pc.Config))
+            for obj in (pc.Config(), pc.config):
+                names |= set(dir(obj)) | set(getattr(obj, '__dict__', {}))
+        except Exception:       # noqa: a tree that cannot even build a Config(): the static names remain
+            pass
+        _ATTR_POOL = sorted(n for n in names if isinstance(n, str) and n not in DEFAULTS)
+    return _ATTR_POOL
+
+
+NONSTR_KEYS = [1, 0, True, False, None, 1.5, -3]        # YAML has them; TOML keys are strings
+
+
+def variant_keys(rng):
+    """[(kind, key)]: names that are NOT settings but look like one - case, surrounding whitespace, prefix / suffix / affix of
+    a writable name - and arbitrary names."""
+    out = []
+    names = list(DEFAULTS)
+    for w in rng.sample(names, 5) + ['vars', 'json_indent']:
+        out += [('case', w.upper()), ('case', w.capitalize()), ('case', w.title().replace('_', '')),
+                ('case', w[0].upper() + w[1:-1] + w[-1].upper())]
+    for w in rng.sample(names, 4) + ['vars', 'shortcuts']:
+        out += [('whitespace', ' ' + w), ('whitespace', w + ' '), ('whitespace', w + '\t'), ('whitespace', '\n' + w)]
+    for w in rng.sample(names, 5) + ['vars', 'no_cache']:
+        out += [('affix', w[:-1]), ('affix', w + 's'), ('affix', w + '_'), ('affix', '_' + w), ('affix', w[1:]),
+                ('affix', 'self.' + w), ('affix', w.replace('_', '-')), ('affix', w.replace('_', ''))]
+    out += [('odd', ''), ('odd', ' '), ('odd', 'Config'), ('odd', 'self'), ('odd', 'input'), ('odd', 'keys'), ('odd', 'config'),
+            ('odd', 'None'), ('odd', 'true'), ('odd', '1')]
+    alpha = 'abcdefghijklmnopqrstuvwxyz_'
+    for _ in range(8):
+        out.append(('random', ''.join(rng.choice(alpha) for _ in range(rng.randint(1, 14)))))
+    seen, res_ = set(), []
+    for kind, k in out:
+        if k not in DEFAULTS and k not in seen:
+            seen.add(k)
+            res_.append((kind, k))
+    return res_
+
+
+def unknown_value(rng, i):
+    return [1, True, 'x', {'a': 1}, [1], 'linux', 0, ''][i % 8]
+
+
+def unknown_key_case(rng, kind, key, loc, shape, i):
+    """One file at `loc` with the key `key` (not a setting). shape 0: the key alone, no other file; 1: the key alone, valid
+    settings in lower / higher files; 2: the key among valid settings of the same file + valid lower / higher files."""
+    glob = 'g.yaml' if loc == 'global' else None
+    env, spec = layout(commons=('c1', 'c2'), user='xh', glob=glob)
+    target = WHERE[loc]
+    others = [p for p in spec['order'] if p != target]
+    contents = {}
+    if shape:
+        good = assign(rng, rng.sample(others, min(len(others), rng.choice([1, 2, 3]))))
+        contents = {p: good[p] for p in spec['order'] if p in good}
+    val = unknown_value(rng, i)
+    if shape == 2:
+        valid = [('json_indent', 77), ('vars', {'leak': 1}), ('default_group', 'leak'), ('shortcuts', {'leak': {'pipeline_name': 'leak'}})]
+        pos = i % (len(valid) + 1)
+        items = valid[:pos] + [(key, val)] + valid[pos:]
+        contents[target] = dict(items)
+    else:
+        contents[target] = {key: val}
+    case = build_case(f'unknownkey:{kind}:{key_str(key)!r}@{loc}:{shape}', env, spec, contents, rng)
+    case['unknown_key'] = {'kind': kind, 'key': key_str(key), 'loc': loc, 'shape': shape}
+    return case
+
+
+def unknown_key_cases(rng, res, quick):
+    """Every attribute name of the Config object / class, the look-alike names and the non-str keys as a top-level key of a
+    config file. quick: each name once, the location and the shape rotating; thorough: every name at every location."""
+    locs = ['common', 'common-low', 'user', 'global', 'pyproject', 'local']
+    pool = [('attribute', k) for k in attr_pool()] + variant_keys(rng) + [('non-str', k) for k in NONSTR_KEYS]
+    out = []
+    off = rng.randrange(6)
+    for i, (kind, key) in enumerate(pool):
+        here = [locs[(i + off) % 6]] if quick else locs
+        for li, loc in enumerate(here):
+            if kind == 'non-str' and loc == 'pyproject':
+                if not quick:
+                    continue
+                loc = 'local'
+            res.count(f'unknown_key_kind:{kind}')
+            res.count(f'unknown_key_loc:{loc}')
+            out.append(unknown_key_case(rng, kind, key, loc, (i // 6 + li + off) % 3, i + li))
+    return out
+
+
+def update_tie_cases(rng):
+    """In-process: `Config().update({name: 1})` for every name of the pools AND every documented setting: raises the
+    ConfigError iff the name is not a documented setting (judged against DEFAULTS and against the model's `updateOrd`)."""
+    keys = [repr(k) for k in attr_pool()] + [repr(k) for _kind, k in variant_keys(rng)] + [repr(k) for k in NONSTR_KEYS]
+    keys += [repr(k) for k in DEFAULTS] + [repr('jsön_indent'), repr(b'vars'), repr(('vars',)), repr(2 ** 70), repr(float('inf')).replace('inf', '1e999')]
+    out = []
+    for i, r in enumerate(dict.fromkeys(keys)):
+        out.append({'tag': f'updatetie:{r}', 'update_tie': r, 'with_valid': i % 2 == 1, 'env': {}, 'files': [],
+                    'spec': {'skip': False, 'global': None, 'order': [], 'ignored': []}})
+    return out
+
+
 def random_case(rng, res, i):
     n_common = rng.choice([1, 2, 2, 3, 3])
     commons = tuple(rng.sample(['c1', 'c2', 'c3', 'c4'], n_common))
@@ -661,6 +790,10 @@ def random_case(rng, res, i):
     if present and rng.random() < 0.25:
         target = rng.choice(present)
         name, obj = rng.choice(BAD + BENIGN)
+        if rng.random() < 0.5:      # an unknown setting drawn from the pools: attribute names, look-alikes, non-str keys
+            pool = [k for k in attr_pool()] + [k for _kind, k in variant_keys(rng)] + NONSTR_KEYS
+            key = rng.choice(pool)
+            name, obj = ('nonstr-key' if not isinstance(key, str) else 'unknown-pool'), {key: unknown_value(rng, rng.randrange(8))}
         if not (target == 'pyproject.toml' and name == 'nonstr-key'):
             if isinstance(obj, dict) and obj and rng.random() < 0.5:
                 obj = {**contents[target], **obj}
@@ -781,6 +914,7 @@ def all_cases(env, res):
     rng = env.rng
     cases = subset_cases(rng, res, False) + subset_cases(rng, res, True)
     cases += malformed_cases(rng, res, env.quick)
+    cases += unknown_key_cases(rng, res, env.quick)
     cases += env_cases(rng, res, env.quick)
     cases += relative_xdg_cases(rng, res, env.quick)
     cases += syntax_cases(rng, res, env.quick) + dictprop_cases(rng, res, env.quick) + platform_cases(rng, res, env.quick)
@@ -953,7 +1087,8 @@ def judge_init(spec, case_files, base, obs, base_name):
         if pl['kind'] == 'nonmap':
             must_reject = ('non_mapping_rejected', f"{p} is a {'truthy' if pl['truthy'] else 'falsy'} non-mapping file")
         elif pl['kind'] == 'map' and any(k not in DEFAULTS for k, _ in pl['kvs']):
-            must_reject = ('unknown_rejected', f'{p} has an unknown setting')
+            unk = [k for k, _ in pl['kvs'] if k not in DEFAULTS]
+            must_reject = ('unknown_rejected', f'{p} has the top-level key(s) {unk}, not in the documented list of settings')
         elif pl['kind'] == 'map' and any(k in DICTS and not (isinstance(v, dict) and 'd' in v) for k, v in pl['kvs']):
             return None            # dict prop that is not a mapping: the property text is silent
     if must_reject:
@@ -965,6 +1100,21 @@ def judge_init(spec, case_files, base, obs, base_name):
             return (f'{why}, but init() raised nothing', {**sig, 'how': 'accepted'})
         if err['type'] != 'ConfigError':
             return (f"{why}, but init() raised {err['type']} instead of a config error", {**sig, 'how': 'wrong-error'})
+        if clause == 'unknown_rejected':
+            # "rejected": nothing the rejected file sets may show on the object (unless a lower file / the base says the same)
+            bad = next(p for p in order if files.get(p, {}).get('kind') == 'map' and any(k not in DEFAULTS for k, _ in files[p]['kvs']))
+            lower = [dict(files[p]['kvs']) for p in order[:order.index(bad)] if files.get(p, {}).get('kind') == 'map']
+            for k, v in files[bad]['kvs']:
+                if k in SCALARS and got.get(k) == dec(v) and defaults.get(k) != dec(v) and not any(dec(m.get(k)) == dec(v) for m in lower if k in m):
+                    return (f'{why} and init() raised the config error, but {k} = {got.get(k)!r} of that same file is applied',
+                            {**sig, 'how': 'partially-applied', 'kind': 'scalar'})
+                if k in DICTS and isinstance(dec(v), dict):
+                    for kk, vv in dec(v).items():
+                        g = got.get(k) or {}
+                        if kk in g and g[kk] == vv and (defaults.get(k) or {}).get(kk) != vv and \
+                                not any(isinstance(dec(m.get(k)), dict) and dec(m[k]).get(kk) == vv for m in lower if k in m):
+                            return (f'{why} and init() raised the config error, but {k}[{kk!r}] of that same file is applied',
+                                    {**sig, 'how': 'partially-applied', 'kind': 'dict'})
         return None
     if err is not None:
         return (f"every file is a mapping of known settings, but init() raised {err['type']}: {err.get('kind')}",
@@ -1045,7 +1195,65 @@ def is_nontrivial(case):
     return bool(case['files']) or bool(case['spec'].get('global')) or bool(case.get('script'))
 
 
+def evaluate_update_tie(env, res, cases):
+    """`Config().update({key: 1})` in this process, for every name of the pools and every documented setting: the monitor
+    (DEFAULTS) and the model (`config.apply` on the defaults = `handle_path` with that mapping) against the implementation."""
+    import ast
+    obs = []
+    for case in cases:
+        key = ast.literal_eval(case['update_tie'])
+        inp = {'json_indent': 77, key: 1, 'default_group': 'leak'} if case['with_valid'] and key not in ('json_indent', 'default_group') else {key: 1}
+        o = {'raised': None, 'msg': None, 'leaked': []}
+        try:
+            import pypyr.config as pc
+            import pypyr.errors
+            c = pc.Config()
+            try:
+                c.update(inp)
+            except pypyr.errors.ConfigError as e:
+                o['raised'], o['msg'] = 'ConfigError', str(e)[:200]
+            except BaseException as e:     # noqa: whatever it is, it is an observation
+                o['raised'], o['msg'] = type(e).__name__, str(e)[:200]
+            if len(inp) > 1:
+                o['leaked'] = [k for k, v in (('json_indent', 77), ('default_group', 'leak')) if getattr(c, k, None) == v]
+        except BaseException as e:         # noqa
+            o['raised'], o['msg'] = 'crash:' + type(e).__name__, str(e)[:200]
+        obs.append((key, inp, o))
+    models = env.driver.ask_many([('config.apply', {'env': {'vars': [], 'home': f'{S}/home', 'platform': 'posix'}, 'path': 'f',
+                                                   'payload': payload_wire(inp)}) for _k, inp, _o in obs])
+    for case, (key, inp, o), mo in zip(cases, obs, models):
+        res.count('stream:updatetie')
+        res.case(case, nontrivial=True)
+        setting = isinstance(key, str) and key in DEFAULTS
+        res.count('updatetie:' + ('setting' if setting else 'not-a-setting:' + (o['raised'] or 'accepted')))
+        if not setting:
+            if o['raised'] is None:
+                res.violation(case, f'Config().update({inp!r}): {key!r} is not in the documented list of settings, but nothing was raised',
+                              signature={'clause': 'unknown_rejected', 'how': 'accepted', 'via': 'Config.update'}, impl=o)
+            elif o['raised'] != 'ConfigError':
+                res.violation(case, f"Config().update({inp!r}): {key!r} is not a setting, but {o['raised']} was raised instead of a config error",
+                              signature={'clause': 'unknown_rejected', 'how': 'wrong-error', 'via': 'Config.update'}, impl=o)
+            elif o['leaked']:
+                res.violation(case, f"Config().update({inp!r}) raised the config error for {key!r}, but {o['leaked']} of the same mapping were applied",
+                              signature={'clause': 'unknown_rejected', 'how': 'partially-applied', 'via': 'Config.update'}, impl=o)
+        elif o['raised'] == 'ConfigError':
+            res.violation(case, f"Config().update({inp!r}): {key!r} is a documented setting, but a config error was raised: {o['msg']}",
+                          signature={'clause': 'valid_files_accepted', 'error': 'ConfigError', 'via': 'Config.update'}, impl=o)
+        if isinstance(mo, common.Reject):
+            res.mismatch(case, {'reject': str(mo)}, o, 'the generator produced a case outside the modelled domain')
+            continue
+        m_err = mo['err']['name'] if mo['err'] else None
+        if m_err != o['raised']:
+            res.mismatch(case, {'raised': m_err, 'kind': mo['err'] and mo['err']['kind']}, o, 'Config.update: model and implementation raise differently')
+
+
 def evaluate(env, res, cases):
+    ties = [c for c in cases if c.get('update_tie') is not None]
+    if ties:
+        evaluate_update_tie(env, res, ties)
+        cases = [c for c in cases if c.get('update_tie') is None]
+        if not cases:
+            return
     repo = str(common.REPO)
     impl = impl_c20.run_many(cases, repo)
     models = env.driver.ask_many([history_request(c) if c.get('script') is not None else model_request(c) for c in cases])
@@ -1169,7 +1377,14 @@ def run(env, res):
                 'pyproject[tool.pypyr], local} existing x $PYPYR_CONFIG_GLOBAL unset / set+existing, each with a '
                 'generated assignment (every scalar and vars/shortcuts key set by 0-3 of the files, file-naming values); '
                 'malformed/benign payloads ([] [1,2] 0 5 "" "text" false true, unknown key alone / with valid keys / '
-                'wrong case / non-str key, empty file, {}) at every location; files that do not PARSE (12 kinds of YAML syntax error, '
+                'wrong case / non-str key, empty file, {}) at every location; UNKNOWN-SETTING NAMES: the name of every attribute of the '
+                'Config object and class of the tree under test (dir() of an instance, of the singleton, the class __dict__s along the '
+                'mro: properties, methods, private and dunder names; minus the documented writable set), look-alikes of settings (case, '
+                'surrounding whitespace, prefix / suffix / affix), odd and random names, non-str keys (1 0 true false null 1.5 -3; '
+                'YAML only) as a top-level key - alone, alone with valid lower / higher files, among valid settings of the same file - quick: '
+                'every name once, location and shape rotating, thorough: every name at every location (common, lowest common, user, '
+                '$PYPYR_CONFIG_GLOBAL, [tool.pypyr], local); in-process tie Config().update({name: 1}) raises the config error iff the '
+                'name is not a documented setting, for all those names and all 17 settings; files that do not PARSE (12 kinds of YAML syntax error, '
                 'duplicate key, two documents, undecodable bytes; 4 kinds of TOML error; tool = 1 / "x" / [1] / 0 / "") at every location; '
                 'something unopenable in place of a file (directory, symlink loop, path through a regular file) at every location; '
                 'vars / shortcuts given a list of pairs, short / long pairs, a string, None, a number - alone and together with the other '
@@ -1185,7 +1400,7 @@ def run(env, res):
                 'and init(), and between two init() calls on the same object or on different objects; then random '
                 'histories of 2-7 steps over 1-3 objects. Non-trivial = at least one config file exists, '
                 '$PYPYR_CONFIG_GLOBAL is set, or the case is a history.')
-    cases = all_cases(env, res)
+    cases = update_tie_cases(env.rng) + all_cases(env, res)
     evaluate(env, res, cases)
 
 
